@@ -119,6 +119,9 @@ func runABI(e *core.Env, prop string) error {
 	}
 	k := 0
 	for _, ec := range evs {
+		if e.OverBudget() {
+			break // (a change that makes decoding slow: what was explored so far is evaluated)
+		}
 		ev := eventOf("E", ec.inputs)
 		// parser correspondence (C09 parse side)
 		implTy := core.Protect(func() string { return "ok " + dig.VerifEventType(ev) })
